@@ -88,14 +88,20 @@ Inductive mode := MCreate | MWrite | MRead.
 Inductive obj := OFile | OVar (i : Z) | ODim (i d : Z).
 
 Inductive vkind := KSds | KCoord.
-(** a variable: dataset or coordinate variable.  [v_name = None]: name chosen by the library (unnamed dimension).
+(** the name of a dimension or variable: given by the caller, or chosen by the library for an unnamed dimension
+    ("fakeDim<n>"; callers' names never start with "fakeDim": [dim_names_ok]).  Library-chosen names are not compared. *)
+Inductive dname := DUser (b : bytes) | DFake (n : nat).
+Definition dname_eqb (a b : dname) : bool :=
+  match a, b with DUser x, DUser y => beq x y | DFake m, DFake n => Nat.eqb m n | _, _ => false end.
+(** a variable: dataset or coordinate variable.
     [v_dims]: the slots of its dimensions in the file's dimension table ([s_slots]: slot -> dimension; SDsetdimname
     with a name in use makes a slot denote the existing dimension).  [v_scale]: values of a coordinate variable once
-    set.  [v_cobj]: the dimension a coordinate variable was made for (-1 for a dataset). *)
-Record var := mkVar { v_name : option bytes; v_kind : vkind; v_nt : Z; v_dims : list Z;
-                      v_attrs : list attr; v_scale : option bytes; v_cobj : Z }.
-Record dimo := mkDim { d_name : option bytes; d_size : Z }.
-Record sdcore := mkSd { s_gattrs : list attr; s_vars : list var; s_dims : list dimo; s_slots : list Z }.
+    set.  [v_cobj]: the dimension a coordinate variable was made for.  [v_ref]: its reference token. *)
+Definition name_tok (n : dname) : tok := match n with DUser b => TB b | DFake _ => TQ end.
+Record var := mkVar { v_name : dname; v_kind : vkind; v_nt : Z; v_dims : list nat;
+                      v_attrs : list attr; v_scale : option bytes; v_cobj : option nat; v_ref : Z }.
+Record dimo := mkDim { d_name : dname; d_size : Z }.
+Record sdcore := mkSd { s_gattrs : list attr; s_vars : list var; s_dims : list dimo; s_slots : list nat }.
 
 Record vdata := mkVd { vd_nf : Z; vd_attrs : list (Z * list attr) (* field index -> list *) }.
 Record hcore := mkH { h_gattrs : list attr; h_imgs : list (bytes * list attr); h_vds : list vdata;
@@ -142,7 +148,7 @@ Fixpoint zupd {A} (l : list A) (i : nat) (x : A) : list A :=
 Definition zset {A} (l : list A) (i : Z) (x : A) : list A := zupd l (Z.to_nat i) x.
 
 Definition has_prefix (p l : bytes) : bool := beq p (firstn (length p) l).
-Definition fake_prefix : bytes := [102; 97; 107; 101; 68; 105; 109].   (* "fakeDim" *)
+Definition fake_prefix : bytes := FAKE_PREFIX.   (* "fakeDim", from hdf_write_dim *)
 Fixpoint cstr (l : bytes) : bytes := match l with [] => [] | x :: r => if x =? 0 then [] else x :: cstr r end.
 Fixpoint zeros (n : nat) : bytes := match n with O => [] | S k => 0 :: zeros k end.
 (** first [n] bytes of a value copied into a zeroed buffer *)
@@ -169,63 +175,92 @@ Definition find_res (l : list attr) (n : bytes) : res :=
 (* ---- SD ------------------------------------------------------------------------------------------------ *)
 Definition writable (m : option mode) : bool := match m with Some MCreate | Some MWrite => true | _ => false end.
 
+Fixpoint first_idx {A} (f : A -> bool) (l : list A) : option nat :=
+  match l with [] => None | x :: r => if f x then Some O else option_map S (first_idx f r) end.
+
 Definition set_vars (c : sdcore) (vs : list var) : sdcore := mkSd (s_gattrs c) vs (s_dims c) (s_slots c).
 Definition set_dims (c : sdcore) (ds : list dimo) : sdcore := mkSd (s_gattrs c) (s_vars c) ds (s_slots c).
-Definition set_slots (c : sdcore) (sl : list Z) : sdcore := mkSd (s_gattrs c) (s_vars c) (s_dims c) sl.
+Definition set_slots (c : sdcore) (sl : list nat) : sdcore := mkSd (s_gattrs c) (s_vars c) (s_dims c) sl.
 Definition set_gattrs (c : sdcore) (l : list attr) : sdcore := mkSd l (s_vars c) (s_dims c) (s_slots c).
 
 (** dimension [d] of variable [i]: its slot in the file's dimension table and the dimension that slot denotes *)
-Definition var_slot (c : sdcore) (i d : Z) : option Z :=
+Definition var_slot (c : sdcore) (i d : Z) : option nat :=
   match znth (s_vars c) i with Some v => znth (v_dims v) d | None => None end.
-Definition var_dim (c : sdcore) (i d : Z) : option Z :=
-  match var_slot c i d with Some sl => znth (s_slots c) sl | None => None end.
+Definition slot_dim (c : sdcore) (sl : nat) : option nat := nth_error (s_slots c) sl.
 
-(** the coordinate variable of dimension [k]: the first coordinate variable made for that dimension *)
-Fixpoint coord_from (vs : list var) (k : Z) (i : Z) : option Z :=
-  match vs with
-  | [] => None
-  | v :: r => match v_kind v with
-              | KCoord => if v_cobj v =? k then Some i else coord_from r k (i + 1)
-              | KSds => coord_from r k (i + 1)
-              end
+(** The two places where the C code and the specification are written differently, as parameters of the oracle:
+    [hk_coord c k]  = the coordinate variable of dimension [k];
+    [hk_persist c]  = what a later SDstart finds after SDend has written the metadata of [c]. *)
+Record hooks := mkHooks { hk_coord : sdcore -> nat -> option nat; hk_persist : sdcore -> sdcore }.
+
+(** specification: the first coordinate variable made for that dimension *)
+Definition is_coord_of (k : nat) (v : var) : bool :=
+  match v_kind v, v_cobj v with KCoord, Some k' => Nat.eqb k' k | _, _ => false end.
+Definition coord_of (c : sdcore) (k : nat) : option nat := first_idx (is_coord_of k) (s_vars c).
+
+(** specification: the file keeps the dimensions in use (in the order of their first slot), every variable refers
+    to them directly, a coordinate variable whose dimension is no longer in use belongs to no dimension *)
+Fixpoint keep_first (l seen : list nat) : list nat :=
+  match l with
+  | [] => []
+  | x :: r => if existsb (Nat.eqb x) seen then keep_first r seen else x :: keep_first r (x :: seen)
   end.
-Definition coord_of (c : sdcore) (k : Z) : option Z := coord_from (s_vars c) k 0.
+Definition live_list (c : sdcore) : list nat := keep_first (s_slots c) [].
+Definition index_of (k : nat) (l : list nat) : option nat := first_idx (Nat.eqb k) l.
+Definition dim0 := mkDim (DFake 0) 0.
+Definition normalize (c : sdcore) : sdcore :=
+  let live := live_list c in
+  let res (sl : nat) := match slot_dim c sl with
+                        | Some k => match index_of k live with Some j => j | None => O end
+                        | None => O
+                        end in
+  mkSd (s_gattrs c)
+       (map (fun v => mkVar (v_name v) (v_kind v) (v_nt v) (map res (v_dims v)) (v_attrs v) (v_scale v)
+                            (match v_cobj v with Some k => index_of k live | None => None end) (v_ref v)) (s_vars c))
+       (map (fun k => nth k (s_dims c) dim0) live)
+       (seq 0 (length live)).
+Definition spec_hooks := mkHooks coord_of normalize.
 
 (** get the coordinate variable of dimension [k] (reached through slot [sl]), creating it (float32 unless [nt]
     given) when missing *)
-Definition ensure_coord (c : sdcore) (sl k : Z) (nt : Z) : sdcore * Z :=
-  match coord_of c k with
+Definition ensure_coord (hk : hooks) (c : sdcore) (sl k : nat) (nt : Z) : sdcore * nat :=
+  match hk_coord hk c k with
   | Some i => (c, i)
   | None =>
-    let nm := match znth (s_dims c) k with Some dm => d_name dm | None => None end in
-    (set_vars c (s_vars c ++ [mkVar nm KCoord (if nt =? 0 then DFNT_FLOAT32 else nt) [sl] [] None k]), zlen (s_vars c))
+    let nm := match nth_error (s_dims c) k with Some dm => d_name dm | None => DFake 0 end in
+    (set_vars c (s_vars c ++ [mkVar nm KCoord (if nt =? 0 then DFNT_FLOAT32 else nt) [sl] [] None (Some k) (zlen (s_vars c))]),
+     length (s_vars c))
   end.
 
-Definition upd_var (v : var) (nm : option bytes) (nt : Z) (dims : list Z) (l : list attr) (sc : option bytes) : var :=
-  mkVar nm (v_kind v) nt dims l sc (v_cobj v).
-Definition set_var_attrs (c : sdcore) (i : Z) (l : list attr) : sdcore :=
-  match znth (s_vars c) i with
-  | Some v => set_vars c (zset (s_vars c) i (upd_var v (v_name v) (v_nt v) (v_dims v) l (v_scale v)))
+Definition upd_var (v : var) (nm : dname) (nt : Z) (l : list attr) (sc : option bytes) : var :=
+  mkVar nm (v_kind v) nt (v_dims v) l sc (v_cobj v) (v_ref v).
+Definition set_var_attrs (c : sdcore) (i : nat) (l : list attr) : sdcore :=
+  match nth_error (s_vars c) i with
+  | Some v => set_vars c (zupd (s_vars c) i (upd_var v (v_name v) (v_nt v) l (v_scale v)))
   | None => c
   end.
 
 (** resolve an object to (state after a possible coordinate-variable creation, where its list lives, the list) *)
-Inductive where_ := WFile | WVar (i : Z).
-Definition resolve (c : sdcore) (o : obj) (create : bool) : option (sdcore * where_ * list attr) :=
+Inductive where_ := WFile | WVar (i : nat).
+Definition resolve (hk : hooks) (c : sdcore) (o : obj) (create : bool) : option (sdcore * where_ * list attr) :=
   match o with
   | OFile => Some (c, WFile, s_gattrs c)
-  | OVar i => match znth (s_vars c) i with Some v => Some (c, WVar i, v_attrs v) | None => None end
+  | OVar i => match znth (s_vars c) i with Some v => Some (c, WVar (Z.to_nat i), v_attrs v) | None => None end
   | ODim i d =>
-    match var_slot c i d, var_dim c i d with
-    | Some sl, Some k =>
-      if create then
-        let '(c', j) := ensure_coord c sl k 0 in
-        match znth (s_vars c') j with Some v => Some (c', WVar j, v_attrs v) | None => None end
-      else match coord_of c k with
-           | Some j => match znth (s_vars c) j with Some v => Some (c, WVar j, v_attrs v) | None => None end
-           | None => Some (c, WFile, [])       (* no coordinate variable: empty list, never written to *)
-           end
-    | _, _ => None
+    match var_slot c i d with
+    | Some sl =>
+      match slot_dim c sl with
+      | Some k =>
+        if create then
+          let '(c', j) := ensure_coord hk c sl k 0 in
+          match nth_error (s_vars c') j with Some v => Some (c', WVar j, v_attrs v) | None => None end
+        else match hk_coord hk c k with
+             | Some j => match nth_error (s_vars c) j with Some v => Some (c, WVar j, v_attrs v) | None => None end
+             | None => Some (c, WFile, [])       (* no coordinate variable: empty list, never written to *)
+             end
+      | None => None
+      end
+    | None => None
     end
   end.
 Definition put_attrs (c : sdcore) (w : where_) (l : list attr) : sdcore :=
@@ -289,14 +324,33 @@ Definition spec_getfill (l : list attr) : option bytes := option_map a_data (fin
 
 Definition dim_names_ok (n : bytes) : bool := negb (has_prefix fake_prefix n) && (1 <=? zlen n) && (zlen n <=? 60).
 
-(** what the file keeps at SDend: every variable refers to its dimensions directly (duplicate slots are merged) *)
-Definition normalize (c : sdcore) : sdcore :=
-  let res (sl : Z) := match znth (s_slots c) sl with Some k => k | None => sl end in
-  mkSd (s_gattrs c)
-       (map (fun v => mkVar (v_name v) (v_kind v) (v_nt v) (map res (v_dims v)) (v_attrs v) (v_scale v) (v_cobj v)) (s_vars c))
-       (s_dims c) (map Z.of_nat (seq 0 (length (s_dims c)))).
+(** a dimension other than [k], in use, that carries the name [n] (SDsetdimname walks the dimension table) *)
+Definition dim_in_use (c : sdcore) (n : dname) (k : nat) : option nat :=
+  find (fun k2 => negb (Nat.eqb k2 k) && match nth_error (s_dims c) k2 with Some dm => dname_eqb (d_name dm) n | None => false end)
+       (s_slots c).
 
-Definition sd_step (s : state) (o : op) : state * res :=
+(** SDcreate: [rank] new unnamed dimensions ("fakeDim<slot number>"), one new slot each, one new dataset *)
+Definition sd_create (c : sdcore) (name : bytes) (nt : Z) (dims : list Z) : sdcore :=
+  let ns := length (s_slots c) in
+  let nd := length (s_dims c) in
+  let idx := seq 0 (length dims) in
+  mkSd (s_gattrs c)
+       (s_vars c ++ [mkVar (DUser name) KSds nt (map (fun k => ns + k)%nat idx) [] None None (zlen (s_vars c))])
+       (s_dims c ++ map (fun p => mkDim (DFake (ns + fst p)) (snd p)) (combine idx dims))
+       (s_slots c ++ map (fun k => nd + k)%nat idx).
+
+(** SDsetdimname, name not in use: rename; the coordinate variable (scale, attributes) follows the dimension *)
+Definition sd_rename (hk : hooks) (c : sdcore) (k : nat) (dm : dimo) (name : bytes) : sdcore :=
+  let vars' := match hk_coord hk c k with
+               | Some j => match nth_error (s_vars c) j with
+                           | Some v => zupd (s_vars c) j (upd_var v (DUser name) (v_nt v) (v_attrs v) (v_scale v))
+                           | None => s_vars c
+                           end
+               | None => s_vars c
+               end in
+  set_dims (set_vars c vars') (zupd (s_dims c) k (mkDim (DUser name) (d_size dm))).
+
+Definition sd_step_with (hk : hooks) (s : state) (o : op) : state * res :=
   let c := sd_cur s in
   let w := writable (sd_mode s) in
   match o with
@@ -313,7 +367,7 @@ Definition sd_step (s : state) (o : op) : state * res :=
   | SdEnd =>
     match sd_mode s with
     | None => (s, RUnspec)
-    | Some _ => let keep := if w && sd_dirty s then normalize c else sd_saved s in
+    | Some _ => let keep := if w && sd_dirty s then hk_persist hk c else sd_saved s in
                 (mkSt keep keep None false (h_cur s) (h_mode s) (sd_exists s) (h_exists s), ROk [])
     end
   | SdCreate name nt rank dims =>
@@ -322,22 +376,14 @@ Definition sd_step (s : state) (o : op) : state * res :=
     | Some _, Some _ =>
       if (Z.land nt DFNT_NATIVE =? 0) && (zlen dims =? rank) && (1 <=? rank) && (rank <=? 4)
          && forallb (fun x => 1 <=? x) dims && dim_names_ok name && negb (match name with 32 :: _ => true | _ => false end)
-      then
-        let nd := zlen (s_dims c) in
-        let ns := zlen (s_slots c) in
-        let idx := map Z.of_nat (seq 0 (length dims)) in
-        let c1 := mkSd (s_gattrs c)
-                       (s_vars c ++ [mkVar (Some name) KSds nt (map (fun k => ns + k) idx) [] None (-1)])
-                       (s_dims c ++ map (fun x => mkDim None x) dims)
-                       (s_slots c ++ map (fun k => nd + k) idx) in
-        (with_cur s c1 true, ROk [TI (zlen (s_vars c))])
+      then (with_cur s (sd_create c name nt dims) true, ROk [TI (zlen (s_vars c))])
       else (s, RUnspec)
     | _, _ => (s, RUnspec)
     end
   | SdSetAttr ob name nt count data =>
     if negb w then (s, RUnspec) else
     if negb (args_ok false nt count data) then (s, RFail) else
-    match resolve c ob true with
+    match resolve hk c ob true with
     | None => (s, RFail)
     | Some (c', wh, l) =>
       if H4_MAX_NC_NAME <? zlen name then (with_cur s c' false, RFail) else
@@ -347,16 +393,16 @@ Definition sd_step (s : state) (o : op) : state * res :=
       end
     end
   | SdAttrs ob =>
-    match resolve c ob false with Some (_, _, l) => (s, attrs_res l) | None => (s, RFail) end
+    match resolve hk c ob false with Some (_, _, l) => (s, attrs_res l) | None => (s, RFail) end
   | SdAttrInfo ob i =>
-    match resolve c ob true with Some (c', _, l) => (with_cur s c' false, info_res l i) | None => (s, RFail) end
+    match resolve hk c ob true with Some (c', _, l) => (with_cur s c' false, info_res l i) | None => (s, RFail) end
   | SdFindAttr ob n =>
-    match resolve c ob true with Some (c', _, l) => (with_cur s c' false, find_res l n) | None => (s, RFail) end
+    match resolve hk c ob true with Some (c', _, l) => (with_cur s c' false, find_res l n) | None => (s, RFail) end
   | SdSetDataStrs i l u f cs =>
     if negb w then (s, RUnspec) else
     match znth (s_vars c) i with
     | None => (s, RFail)
-    | Some v => (with_cur s (set_var_attrs c i (spec_setstrs (v_attrs v) l u f cs)) true, ROk [])
+    | Some v => (with_cur s (set_var_attrs c (Z.to_nat i) (spec_setstrs (v_attrs v) l u f cs)) true, ROk [])
     end
   | SdGetDataStrs i len =>
     match znth (s_vars c) i with
@@ -371,7 +417,7 @@ Definition sd_step (s : state) (o : op) : state * res :=
     | None => (s, RFail)
     | Some v =>
       let f k := firstn 8 (skipn (8 * k) data) in
-      (with_cur s (set_var_attrs c i (spec_setcal (v_attrs v) (f 0%nat) (f 1%nat) (f 2%nat) (f 3%nat) nt)) true, ROk [])
+      (with_cur s (set_var_attrs c (Z.to_nat i) (spec_setcal (v_attrs v) (f 0%nat) (f 1%nat) (f 2%nat) (f 3%nat) nt)) true, ROk [])
     end
   | SdGetCal i =>
     match znth (s_vars c) i with
@@ -387,7 +433,7 @@ Definition sd_step (s : state) (o : op) : state * res :=
     match znth (s_vars c) i with
     | None => (s, RFail)
     | Some v => match nt_size (v_nt v) with
-                | Some sz => (with_cur s (set_var_attrs c i (spec_setrange (v_attrs v) (v_nt v) sz mx mn)) true, ROk [])
+                | Some sz => (with_cur s (set_var_attrs c (Z.to_nat i) (spec_setrange (v_attrs v) (v_nt v) sz mx mn)) true, ROk [])
                 | None => (s, RUnspec)
                 end
     end
@@ -409,7 +455,7 @@ Definition sd_step (s : state) (o : op) : state * res :=
     match znth (s_vars c) i with
     | None => (s, RFail)
     | Some v => match nt_size (v_nt v) with
-                | Some sz => (with_cur s (set_var_attrs c i (spec_setfill (v_attrs v) (v_nt v) sz val)) true, ROk [])
+                | Some sz => (with_cur s (set_var_attrs c (Z.to_nat i) (spec_setfill (v_attrs v) (v_nt v) sz val)) true, ROk [])
                 | None => (s, RUnspec)
                 end
     end
@@ -427,117 +473,127 @@ Definition sd_step (s : state) (o : op) : state * res :=
   | SdSetDimName i d name =>
     if negb w then (s, RUnspec) else
     if negb (dim_names_ok name) then (s, RUnspec) else
-    match var_slot c i d, var_dim c i d with
-    | Some sl, Some k =>
-      match znth (s_dims c) k with
+    match var_slot c i d with
+    | None => (s, RFail)
+    | Some sl =>
+      match slot_dim c sl with
       | None => (s, RFail)
-      | Some dm =>
-        (* another dimension of that name? *)
-        let other := find (fun p => match d_name (snd p) with Some n => beq n name && negb (fst p =? k) | None => false end)
-                          (combine (map Z.of_nat (seq 0 (length (s_dims c)))) (s_dims c)) in
-        match other with
-        | Some (k2, dm2) =>
-          if d_size dm2 =? d_size dm
-          then (with_cur s (set_slots c (zset (s_slots c) sl k2)) true, ROk [])   (* share: the slot now denotes k2 *)
-          else (s, RFail)
-        | None =>
-          (* rename; the coordinate variable (scale, attributes) follows the dimension *)
-          let vars' := match coord_of c k with
-                       | Some j => match znth (s_vars c) j with
-                                   | Some v => zset (s_vars c) j (upd_var v (Some name) (v_nt v) (v_dims v) (v_attrs v) (v_scale v))
-                                   | None => s_vars c
-                                   end
-                       | None => s_vars c
-                       end in
-          (with_cur s (set_dims (set_vars c vars') (zset (s_dims c) k (mkDim (Some name) (d_size dm)))) true, ROk [])
+      | Some k =>
+        match nth_error (s_dims c) k with
+        | None => (s, RFail)
+        | Some dm =>
+          match dim_in_use c (DUser name) k with
+          | Some k2 =>
+            match nth_error (s_dims c) k2 with
+            | Some dm2 => if d_size dm2 =? d_size dm
+                          then (with_cur s (set_slots c (zupd (s_slots c) sl k2)) true, ROk [])   (* share: the slot now denotes k2 *)
+                          else (s, RFail)
+            | None => (s, RFail)
+            end
+          | None => (with_cur s (sd_rename hk c k dm name) true, ROk [])
+          end
         end
       end
-    | _, _ => (s, RFail)
     end
   | SdDimInfo i d =>
-    match var_dim c i d with
+    match var_slot c i d with
     | None => (s, RFail)
-    | Some k =>
-      match znth (s_dims c) k with
+    | Some sl =>
+      match slot_dim c sl with
       | None => (s, RFail)
-      | Some dm =>
-        let nm := match d_name dm with Some n => TB n | None => TQ end in
-        match coord_of c k with
-        | Some j => match znth (s_vars c) j with
-                    | Some v => (s, ROk [nm; TI (d_size dm); TI (match v_scale v with Some _ => v_nt v | None => 0 end); TI (zlen (v_attrs v))])
-                    | None => (s, RFail)
-                    end
-        | None => (s, ROk [nm; TI (d_size dm); TI 0; TI 0])
+      | Some k =>
+        match nth_error (s_dims c) k with
+        | None => (s, RFail)
+        | Some dm =>
+          match hk_coord hk c k with
+          | Some j => match nth_error (s_vars c) j with
+                      | Some v => (s, ROk [name_tok (d_name dm); TI (d_size dm); TI (match v_scale v with Some _ => v_nt v | None => 0 end); TI (zlen (v_attrs v))])
+                      | None => (s, RFail)
+                      end
+          | None => (s, ROk [name_tok (d_name dm); TI (d_size dm); TI 0; TI 0])
+          end
         end
       end
     end
   | SdSetDimScale i d count nt data =>
     if negb w then (s, RUnspec) else
-    match var_slot c i d, var_dim c i d, nt_size nt, nc_type nt with
-    | Some sl, Some k, Some sz, Some _ =>
-      match znth (s_dims c) k with
+    match var_slot c i d with
+    | None => (s, RFail)
+    | Some sl =>
+      match slot_dim c sl with
       | None => (s, RFail)
-      | Some dm =>
-        if negb (count =? d_size dm) then (s, RFail) else
-        if negb ((zlen data =? count * sz) && (Z.land nt DFNT_NATIVE =? 0)) then (s, RUnspec) else
-        let '(c', j) := ensure_coord c sl k nt in
-        match znth (s_vars c') j with
-        | Some v => (with_cur s (set_vars c' (zset (s_vars c') j (upd_var v (v_name v) nt (v_dims v) (v_attrs v) (Some data)))) true, ROk [])
+      | Some k =>
+        match nt_size nt, nc_type nt, nth_error (s_dims c) k with
+        | Some sz, Some _, Some dm =>
+          if negb (count =? d_size dm) then (s, RFail) else
+          if negb ((zlen data =? count * sz) && (Z.land nt DFNT_NATIVE =? 0)) then (s, RUnspec) else
+          let '(c', j) := ensure_coord hk c sl k nt in
+          match nth_error (s_vars c') j with
+          | Some v => (with_cur s (set_vars c' (zupd (s_vars c') j (upd_var v (v_name v) nt (v_attrs v) (Some data)))) true, ROk [])
+          | None => (s, RFail)
+          end
+        | _, _, None => (s, RFail)
+        | _, _, _ => (s, RUnspec)
+        end
+      end
+    end
+  | SdGetDimScale i d =>
+    match var_slot c i d with
+    | None => (s, RFail)
+    | Some sl =>
+      match slot_dim c sl with
+      | None => (s, RFail)
+      | Some k =>
+        let '(c', j) := ensure_coord hk c sl k 0 in
+        match nth_error (s_vars c') j with
+        | Some v => match v_scale v with
+                    | Some dt => (with_cur s c' true, ROk [TI (v_nt v); TB dt])
+                    | None => (s, RUnspec)      (* values of a scale never set: unspecified, as is what SDdiminfo says afterwards *)
+                    end
         | None => (s, RFail)
         end
       end
-    | None, _, _, _ | _, None, _, _ => (s, RFail)
-    | _, _, _, _ => (s, RUnspec)
-    end
-  | SdGetDimScale i d =>
-    match var_slot c i d, var_dim c i d with
-    | Some sl, Some k =>
-      let '(c', j) := ensure_coord c sl k 0 in
-      match znth (s_vars c') j with
-      | Some v => match v_scale v with
-                  | Some dt => (with_cur s c' true, ROk [TI (v_nt v); TB dt])
-                  | None => (s, RUnspec)      (* values of a scale never set: unspecified, as is what SDdiminfo says afterwards *)
-                  end
-      | None => (s, RFail)
-      end
-    | _, _ => (s, RFail)
     end
   | SdSetDimStrs i d l u f =>
     if negb w then (s, RUnspec) else
-    match var_slot c i d, var_dim c i d with
-    | Some sl, Some k =>
-      let '(c', j) := ensure_coord c sl k 0 in
-      match znth (s_vars c') j with
-      | Some v => (with_cur s (set_var_attrs c' j (spec_setstrs (v_attrs v) l u f None)) true, ROk [])
+    match var_slot c i d with
+    | None => (s, RFail)
+    | Some sl =>
+      match slot_dim c sl with
       | None => (s, RFail)
+      | Some k =>
+        let '(c', j) := ensure_coord hk c sl k 0 in
+        match nth_error (s_vars c') j with
+        | Some v => (with_cur s (set_var_attrs c' j (spec_setstrs (v_attrs v) l u f None)) true, ROk [])
+        | None => (s, RFail)
+        end
       end
-    | _, _ => (s, RFail)
     end
   | SdGetDimStrs i d len =>
-    match var_dim c i d with
+    match var_slot c i d with
     | None => (s, RFail)
-    | Some k =>
-      let a := match coord_of c k with
-               | Some j => match znth (s_vars c) j with Some v => v_attrs v | None => [] end
-               | None => []
-               end in
-      (s, ROk [TB (get_str a _HDF_LongName len); TB (get_str a _HDF_Units len); TB (get_str a _HDF_Format len)])
+    | Some sl =>
+      match slot_dim c sl with
+      | None => (s, RFail)
+      | Some k =>
+        let a := match hk_coord hk c k with
+                 | Some j => match nth_error (s_vars c) j with Some v => v_attrs v | None => [] end
+                 | None => []
+                 end in
+        (s, ROk [TB (get_str a _HDF_LongName len); TB (get_str a _HDF_Units len); TB (get_str a _HDF_Format len)])
+      end
     end
   | SdLookup =>
     let vs := s_vars c in
-    let first_named (n : bytes) :=
-        (fix go (l : list var) (i : Z) : Z :=
-           match l with
-           | [] => -1
-           | v :: r => match v_name v with Some m => if beq m n then i else go r (i + 1) | None => go r (i + 1) end
-           end) vs 0 in
-    let row (p : Z * var) : list tok :=
+    let first_named (n : dname) := match first_idx (fun v => dname_eqb (v_name v) n) vs with Some i => Z.of_nat i | None => -1 end in
+    let row (p : nat * var) : list tok :=
         let '(j, v) := p in
-        (match v_name v with Some n => [TB n; TI (first_named n)] | None => [TQ; TQ] end)
-        ++ [TI 1; TI j; TI (match v_kind v with KCoord => 1 | KSds => 0 end); TI (zlen (v_dims v)); TI (v_nt v); TI (zlen (v_attrs v))] in
-    (s, ROk (TI (zlen vs) :: flat_map row (combine (map Z.of_nat (seq 0 (length vs))) vs) ++ [TI 1]))
+        (match v_name v with DUser n => [TB n; TI (first_named (DUser n))] | DFake _ => [TQ; TQ] end)
+        ++ [TI 1; TI (Z.of_nat j); TI (match v_kind v with KCoord => 1 | KSds => 0 end); TI (zlen (v_dims v)); TI (v_nt v); TI (zlen (v_attrs v))] in
+    (s, ROk (TI (zlen vs) :: flat_map row (combine (seq 0 (length vs)) vs) ++ [TI 1]))
   | _ => (s, RUnspec)
   end.
+Definition sd_step := sd_step_with spec_hooks.
 
 (* ---- H-level file: GR, Vdata, Vgroup ------------------------------------------------------------------- *)
 Definition with_h (s : state) (h : hcore) : state :=
@@ -683,7 +739,7 @@ Definition is_h_op (o : op) : bool :=
   end.
 
 (** the oracle.  Operations on a closed interface are outside the domain. *)
-Definition step (s : state) (o : op) : state * res :=
+Definition step_with (hk : hooks) (s : state) (o : op) : state * res :=
   if is_h_op o
   then match o, h_mode s with
        | HStart _, _ => h_step s o
@@ -691,7 +747,8 @@ Definition step (s : state) (o : op) : state * res :=
        | _, Some _ => h_step s o
        end
   else match o, sd_mode s with
-       | SdStart _, _ => sd_step s o
+       | SdStart _, _ => sd_step_with hk s o
        | _, None => (s, RUnspec)
-       | _, Some _ => sd_step s o
+       | _, Some _ => sd_step_with hk s o
        end.
+Definition step := step_with spec_hooks.
